@@ -351,16 +351,6 @@ func (e *Engine) checkProperty(id, tier string, seed int, only string) int {
 		fmt.Printf("ENGINE-FAULT property=%s: no function under contract\n", id)
 		return 2
 	}
-	var reps []*FuncReport
-	var obls []*Obligation
-	for _, n := range names {
-		r := e.verifyFunc(n)
-		reps = append(reps, r)
-		obls = append(obls, r.Obligations...)
-	}
-	// lemmas tagged with this property
-	obls = append(obls, e.lemmaObligations(id)...)
-	obls = append(obls, e.structuralObligations(id, reps)...)
 	timeout := 10
 	if tier == "thorough" {
 		timeout = 60
@@ -368,6 +358,28 @@ func (e *Engine) checkProperty(id, tier string, seed int, only string) int {
 	if t := os.Getenv("P9VC_TIMEOUT"); t != "" {
 		timeout, _ = strconv.Atoi(t)
 	}
+	var reps []*FuncReport
+	var obls []*Obligation
+	if jobs := e.planJobs(names); len(jobs) > 1 && os.Getenv("P9VC_FORK") != "" {
+		// many independent per-kind verifications: explore and solve them in worker processes, merge the results
+		reps = e.runJobs(id, jobs, timeout)
+		if reps == nil {
+			fmt.Printf("ENGINE-FAULT property=%s: a worker process failed\n", id)
+			return 2
+		}
+		for _, r := range reps {
+			obls = append(obls, r.Obligations...)
+		}
+	} else {
+		for _, n := range names {
+			r := e.verifyFunc(n)
+			reps = append(reps, r)
+			obls = append(obls, r.Obligations...)
+		}
+	}
+	// lemmas tagged with this property
+	obls = append(obls, e.lemmaObligations(id)...)
+	obls = append(obls, e.structuralObligations(id, reps)...)
 	outDir := filepath.Join(outBase(), id)
 	os.RemoveAll(outDir)
 	var pending []*Obligation
@@ -667,6 +679,9 @@ func main() {
 	}
 	e.tier = *tier
 	switch cmd {
+	case "worker":
+		// internal: worker <jobfile> <outfile> <timeout>
+		os.Exit(e.workerMain(pos[0], pos[1], pos[2]))
 	case "check":
 		rc := e.checkProperty(pos[0], *tier, seed, *only)
 		if rc == 0 && *tier == "thorough" && os.Getenv("P9VC_REPO") == "" {
